@@ -7,6 +7,7 @@ import (
 	"errors"
 	"fmt"
 	"math"
+	"runtime"
 	"sort"
 	"strconv"
 	"strings"
@@ -45,6 +46,7 @@ type CacheCfg struct {
 	NoHandlers  bool     `json:"no_handlers,omitempty"`
 	SampleSize  uint64   `json:"sample_size,omitempty"`  // small-scope sample period of the hill climber (sequential runs only)
 	WeightShift uint     `json:"weight_shift,omitempty"` // weigher returns (value & 15) << shift: large, byte-size like weights
+	Procs       int      `json:"procs,omitempty"`        // what runtime.GOMAXPROCS(0) answers inside otter (fan-out of the parallel table copy)
 }
 
 func (c CacheCfg) String() string {
@@ -195,6 +197,8 @@ type Rig struct {
 	// loader behaviour for the current op of a thread
 	loadPlan         map[int]string
 	stamp            int64
+	inLoader         atomic.Int32 // loader invocations currently running (gate for "awaitload")
+	threadsDone      atomic.Int32
 	quiet            bool // race pass: handlers, calculators and loaders record nothing
 	quietID          atomic.Int64
 	Saved            []byte
@@ -220,6 +224,9 @@ var errLoad = errors.New("load failed")
 func NewRig(cfg CacheCfg, x *Exec) *Rig {
 	r := &Rig{Cfg: cfg, X: x, quiet: vsched.FreeRunning, ttl: map[int]int64{}, rttl: map[int]int64{}, opIndex: map[int]int{}, Installs: map[int]int{}, loadPlan: map[int]string{}}
 	r.Clock = &manualClock{now: cfg.ClockStart, tick: make(chan time.Time), sample: map[int]int64{}}
+	if cfg.Procs > 0 {
+		vdet.Procs = cfg.Procs
+	}
 	if cfg.Collide {
 		vdet.HashFn = func(seed uint64, key any) uint64 { return 5 }
 	} else if len(cfg.Hashes) > 0 {
@@ -393,8 +400,10 @@ type rigLoader struct {
 func (l *rigLoader) produce(key int, kind string, old int) (int, error) {
 	r := l.r
 	lc := LoadCall{Kind: kind, Keys: []int{key}, Olds: []int{old}, Enter: r.now(), Thread: vsched.CurID()}
+	r.inLoader.Add(1)
 	vsched.EnvPoint()
 	vsched.EnvPoint()
+	r.inLoader.Add(-1)
 	lc.Exit = r.now()
 	v := mkVal(l.id+key, l.w)
 	switch l.outcome {
@@ -449,8 +458,10 @@ func (l *rigBulkLoader) produce(kind string, keys []int, olds []int) (map[int]in
 	r := l.r
 	ks := append([]int(nil), keys...)
 	lc := LoadCall{Kind: kind, Keys: ks, Olds: append([]int(nil), olds...), Enter: r.now(), Thread: vsched.CurID()}
+	r.inLoader.Add(1)
 	vsched.EnvPoint()
 	vsched.EnvPoint()
+	r.inLoader.Add(-1)
 	lc.Exit = r.now()
 	defer func() {
 		if !r.quiet {
@@ -815,6 +826,15 @@ func (r *Rig) Do(th int, op string) (res OpResult) {
 		}
 	case "runexec":
 		res.Int = r.RunDeferred(arg(1, 0))
+	case "awaitload":
+		// gate: wait until some loader invocation is running (or another thread has finished all its operations)
+		if vsched.Active() {
+			vsched.Block(func() bool { return r.inLoader.Load() > 0 || r.threadsDone.Load() > 0 })
+		} else if vsched.FreeRunning {
+			for r.inLoader.Load() == 0 && r.threadsDone.Load() == 0 {
+				runtime.Gosched()
+			}
+		}
 	case "save":
 		var buf bytes.Buffer
 		if err := otter.SaveCacheTo(c, &buf); err != nil {
